@@ -51,25 +51,30 @@ def make_storage(status):
     return st, recs
 
 
-def p2p_datagram(vc, kind):
-    fill = lambda n, name: vc.bytes_(n, name)
+# datagram classes of the P2P handshake, transcribed (not read from the handler's constants): commands start with "P2P" and
+# carry the packet type at offset 20; a ping / an ack carries 0a|0c 00 00 00 14 at offset 4
+CMD, PING, ACK = b"P2P", bytes.fromhex("0a00000014"), bytes.fromhex("0c00000014")
+
+
+def p2p_datagram(vc, kind, tag=""):
+    fill = lambda n, name: vc.bytes_(n, tag + name)
     if kind in ("registration", "dmr", "rdac", "unknown_command"):
         t = {"registration": 0x10, "dmr": 0x11, "rdac": 0x12, "unknown_command": 0x33}[kind]
-        return P2P.COMMAND_PREFIX + fill(17, "a") + bytes([t]) + fill(8, "b")
+        return CMD + fill(17, "a") + bytes([t]) + fill(8, "b")
     if kind == "ping":
         a = fill(4, "a")
-        vc.assume(vc.not_(vc.eq(a[:3], P2P.COMMAND_PREFIX)))  # (a datagram with the command prefix is a command, not a ping)
-        return a + P2P.PING_PREFIX + fill(8, "b")
+        vc.assume(vc.not_(vc.eq(a[:3], CMD)))  # (a datagram with the command prefix is a command, not a ping)
+        return a + PING + fill(8, "b")
     if kind == "ack":
-        return P2P.COMMAND_PREFIX + fill(1, "a") + P2P.ACK_PREFIX + fill(3, "b")
+        return CMD + fill(1, "a") + ACK + fill(3, "b")
     if kind == "short_command":
-        return P2P.COMMAND_PREFIX + fill(2, "a")
+        return CMD + fill(2, "a")
     return b"\x00" + fill(3, "a")  # garbage
 
 
 @contract("P2PDatagramProtocol.datagram_received", "okdmr.dmrlib.protocols.hytera.p2p_datagram_protocol:P2PDatagramProtocol.datagram_received", ["C18"],
           stubs=["Repeater.read_snmp_values"])
-def p2p_one(vc, status, src, kind):
+def p2p_one(vc, status, src, kind, prelude=None):
     if vc.mode == "native":
         Repeater.read_snmp_values = snmp_stub  # the harness replaces the network I/O at run time (property's hook note)
     status = tuple(STATUS[int(c)] for c in status)
@@ -77,6 +82,15 @@ def p2p_one(vc, status, src, kind):
     h = P2P(storage=st, p2p_port=50000, rdac_port=50002)
     tr = Transport()
     h.transport = tr
+    if prelude:
+        # a history of length one before the datagram under test: a datagram of ANOTHER peer, so that whatever the handler
+        # keeps about earlier datagrams (in state this contract knows nothing of) is part of the pre-state
+        try:
+            h.datagram_received(p2p_datagram(vc, prelude, "pre_"), PEERS[(src + 1) % 3])
+        except (ValueError, IndexError):
+            pass
+        del tr.sent[:]
+        recs = {i: r for i in range(3) for r in [st.match_incoming(PEERS[i])] if r is not None}
     pre_reg = {i: bool(r.attr(P2P.STORAGE_ATTR_IS_REGISTERED)) for i, r in recs.items()}
     others = {i: (r.id, r.address_in, r.address_out, dict(r._Repeater__attrs)) for i, r in recs.items() if i != src}
     n0 = len(st)
@@ -120,6 +134,11 @@ def _p2p_shapes(tier):
         for src in range(3):
             for kind in ("registration", "dmr", "rdac", "ping", "ack", "unknown_command", "short_command", "garbage"):
                 yield dict(status=s, src=src, kind=kind)
+    for s in (("000", "120", "201") if tier == "quick" else sts):
+        for src in range(3):
+            for pre in ("registration", "dmr", "ping"):
+                for kind in ("registration", "dmr", "rdac", "ping"):
+                    yield dict(status=s, src=src, kind=kind, prelude=pre)
 
 
 p2p_one.shapes = _p2p_shapes
@@ -129,6 +148,12 @@ EXPECTED = {  # step -> (attribute with the response prefix that advances it, ne
     6: ("STEP4_RESPONSE_2", 7, 2), 7: ("STEP6_RESPONSE", 8, 1), 8: ("STEP7_RESPONSE_1", 10, 0), 10: ("STEP7_RESPONSE_2", 11, 1), 11: ("STEP10_RESPONSE_1", 12, 0),
     12: ("STEP10_RESPONSE_2", 13, 2), 13: ("STEP12_RESPONSE", 14, 0),
 }
+
+
+# the response that advances each step, transcribed from the handshake (HRNP header 7e 04 00 + opcode: fd accept, 10 data
+# acknowledgement, 00 data, fa close acknowledgement) - NOT read from the handler's own constants
+SPEC_PREFIX = {1: "7e0400fd", 2: "7e040010", 3: "7e040000", 4: "7e040000", 5: "7e040010", 6: "7e040000", 7: "7e040010", 8: "7e040010", 10: "7e040000", 11: "7e040010",
+               12: "7e040000", 13: "7e0400fa"}
 
 
 @contract("RDACDatagramProtocol.datagram_received", "okdmr.dmrlib.protocols.hytera.rdac_datagram_protocol:RDACDatagramProtocol.datagram_received", ["C18"],
@@ -152,11 +177,18 @@ def rdac_one(vc, step, kind, other_step):
     elif kind == "expected":
         if step not in EXPECTED:
             return
-        prefix = getattr(RDAC, EXPECTED[step][0])
+        prefix = bytes.fromhex(SPEC_PREFIX[step])
         body = bytes(220 - len(prefix)) if step == 6 else vc.bytes_(40, "body")  # step 6 decodes UTF-16 text: literal filler
         data = prefix + body
     elif kind == "unexpected":
         data = b"\x7e\x04\x00\x55" + (bytes(36) if step == 14 else vc.bytes_(36, "body"))  # (step 14 only logs a hex dump)
+    elif kind == "near_miss":
+        # the common HRNP header with ANY other opcode octet than the one this step waits for
+        if step not in SPEC_PREFIX:
+            return
+        x = vc.uint(8, "opcode")
+        vc.assume(vc.not_(vc.eq(x, int(SPEC_PREFIX[step][6:8], 16))))
+        data = b"\x7e\x04\x00" + (x.to_bytes(1, "big") if vc.mode != "native" else bytes([x])) + bytes(36)
     else:
         data = bytes(2) if step == 14 else vc.bytes_(2, "g")
     pre = h.step.get(me[0]) or 0
@@ -172,7 +204,7 @@ def rdac_one(vc, step, kind, other_step):
         vc.prove("expected_response_sends_the_next_requests_to_that_peer", len(tr.sent) == EXPECTED[pre][2] and all(a == me for d, a in tr.sent))
     else:
         # an unexpected response coincides with the expected prefix only for steps whose prefix it shares
-        shares = pre in EXPECTED and data[: len(getattr(RDAC, EXPECTED[pre][0]))] == getattr(RDAC, EXPECTED[pre][0]) if kind == "unexpected" else False
+        shares = pre in SPEC_PREFIX and data[:4] == bytes.fromhex(SPEC_PREFIX[pre]) if kind == "unexpected" else False
         if not shares and pre != 0:
             vc.prove("step_advances_only_on_the_expected_response", post == pre and len(tr.sent) == 0)
     vc.prove("completion_reported_exactly_on_the_13_to_14_transition", len(done) == (1 if (pre == 13 and post == 14) else 0))
@@ -182,7 +214,7 @@ def rdac_one(vc, step, kind, other_step):
 
 def _rdac_shapes(tier):
     for step in [None, 0] + sorted(EXPECTED) + [14]:
-        for kind in ("reset", "expected", "unexpected", "garbage"):
+        for kind in ("reset", "expected", "unexpected", "near_miss", "garbage"):
             for other_step in ((3,) if tier == "quick" else (0, 3, 13, 14)):
                 yield dict(step=step, kind=kind, other_step=other_step)
 
